@@ -124,7 +124,7 @@ impl Universe {
 
     pub fn vs_matches(&self, vs: usize, s: SRef) -> bool {
         let v = &self.vsets[vs];
-        s.listed && v.pkg == s.pkg && v.matches.contains(&s.idx)
+        s.listed && v.pkg == s.pkg && v.matches.binary_search(&s.idx).is_ok()
     }
 
     /// version set indices of a requirement, in union order
@@ -143,7 +143,7 @@ impl Universe {
             return vec![];
         }
         (0..p.cands.len())
-            .filter(|i| v.matches.contains(i))
+            .filter(|i| v.matches.binary_search(i).is_ok())
             .map(|idx| SRef {
                 pkg: v.pkg,
                 idx,
@@ -160,7 +160,7 @@ impl Universe {
             return vec![];
         }
         (0..p.cands.len())
-            .filter(|i| !v.matches.contains(i))
+            .filter(|i| v.matches.binary_search(i).is_err())
             .map(|idx| SRef {
                 pkg: v.pkg,
                 idx,
@@ -181,7 +181,7 @@ impl Universe {
             .sort_rank
             .iter()
             .copied()
-            .filter(|i| v.matches.contains(i))
+            .filter(|i| v.matches.binary_search(i).is_ok())
             .collect();
         if let Some(f) = p.favored {
             if let Some(pos) = out.iter().position(|&c| c == f) {
@@ -347,6 +347,8 @@ pub struct Index {
     pub vset: HashMap<u32, usize>,
     pub union: HashMap<u32, usize>,
     pub string: HashMap<u32, usize>,
+    /// per package: candidate index -> position in the provider's sort order
+    pub rank_pos: Vec<Vec<usize>>,
 }
 
 impl Index {
@@ -384,6 +386,15 @@ impl Index {
                     "duplicate solvable id"
                 );
             }
+        }
+        for p in &u.packages {
+            let mut pos = vec![usize::MAX; p.cands.len()];
+            for (k, &i) in p.sort_rank.iter().enumerate() {
+                if i < pos.len() {
+                    pos[i] = k;
+                }
+            }
+            ix.rank_pos.push(pos);
         }
         for (i, v) in u.vsets.iter().enumerate() {
             assert!(ix.vset.insert(v.id, i).is_none(), "duplicate vset id");
